@@ -165,6 +165,58 @@ def run(ctx):
                           {"case": c, "implementation": impl[:k + 2] if k is not None else impl[:3], "model": m[:k + 2] if k is not None else m[:3],
                            "correspondence": "model/DualAvg.v vs stepsize::{DualAverage, Adam}"}, found_input=False)
     ctx.oblig("correspondence-stepsize", ndiff == 0, "%d cases differ" % ndiff)
+    # closed loop through real chains: the acceptance statistics fed to the adaptation are
+    # probabilities on every draw - also when the very first leapfrog step of a trajectory diverges
+    # (short warmups: the whole warmup then uses the symmetric statistic) - and the step size stays a
+    # positive finite number within the configured cap
+    ok2, out2 = build_harness(["schedule"])
+    ctx.oblig("harness-build-schedule", ok2, out2[-2000:])
+    if ok2:
+        r = ctx.rnd()
+        cl = []
+        for cid in range(40 if quick else 300):
+            dim = r.choice([1, 2, 3])
+            c = {"id": cid, "preset": r.choice(["diag_nuts", "diag_nuts", "lowrank_nuts"]), "num_tune": r.choice([5, 10, 10, 20, 60]),
+                 "num_draws": 20, "dim": dim, "seed": r.getrandbits(32), "maxdepth": r.choice([3, 5]), "method": "dual",
+                 "jitter": r.choice([None, 0.1]),
+                 # a narrow target makes the first step of many trajectories diverge at the initial step size
+                 "prec": [r.choice([1.0, 1e4, 1e6]) for _ in range(dim)]}
+            if r.random() < 0.5:
+                c["region_fault"] = [r.choice([0.05, 0.5]), r.choice(["rec", "nan_logp", "huge_energy"])]
+            cl.append(c)
+        couts, cerrs = run_harness_parallel("schedule", cl, timeout=1500)
+        ctx.oblig("harness-run-closed-loop", not cerrs and len(couts) == len(cl), "\n".join(cerrs)[:1500])
+        first_step_div = 0
+        for c in cl:
+            o = couts.get(c["id"])
+            if not o or "draws" not in o:
+                continue
+            for d in o["draws"]:
+                if "draw" not in d:
+                    continue
+                ctx.evaluations += 1
+                if d.get("diverging") and d.get("n_steps") in (1, 0):
+                    first_step_div += 1
+                badv = None
+                for key in ("mean_tree_accept", "mean_tree_accept_sym"):
+                    if d.get(key) is not None:
+                        v = b2f(d[key])
+                        if not (0.0 <= v <= 1.0):
+                            badv = "%s = %r at draw %d (diverging=%s, %s leapfrog steps) is not a probability" % (key, v, d["draw"], d.get("diverging"), d.get("n_steps"))
+                st = b2f(d["step_size"])
+                if not (st > 0 and st < float("inf")) and badv is None:
+                    badv = "step size %r at draw %d is not a positive finite number" % (st, d["draw"])
+                if d.get("step_size_bar") is not None and badv is None:
+                    sb = b2f(d["step_size_bar"])
+                    if sb != sb:
+                        badv = "averaged step size is NaN at draw %d" % d["draw"]
+                if badv:
+                    nbad += 1
+                    if nbad <= 3:
+                        violation(ctx, "implementation violates C07: %s" % badv, {"case": c, "draw": d["draw"]}, found_input=True)
+                    break
+        stats["closed_loop_cases"] = len(cl)
+        stats["closed_loop_first_step_divergences"] = first_step_div
     ctx.oblig("impl-audit-C07", nbad == 0, "%d cases" % nbad)
     ctx.notes["input_distribution"] = stats
 
